@@ -6,11 +6,12 @@
 // the library.
 //
 // A typed value is held in its TYPE-LEVEL VIEW as a model.Val:
-//   struct  -> map of ALL fields in schema order; absent optional = KAbsent, nullable null = KNull
-//   union   -> single-entry map {memberTypeName: value}
-//   enum    -> string (member name)
-//   map     -> map keyed by the key's representation string (insertion order)
-//   list    -> list ; scalars, link -> themselves ; any -> a plain value
+//
+//	struct  -> map of ALL fields in schema order; absent optional = KAbsent, nullable null = KNull
+//	union   -> single-entry map {memberTypeName: value}
+//	enum    -> string (member name)
+//	map     -> map keyed by the key's representation string (insertion order)
+//	list    -> list ; scalars, link -> themselves ; any -> a plain value
 package schema
 
 import (
@@ -45,7 +46,7 @@ type Type struct {
 	Discr     map[string]string // member type name -> discriminant (keyed, stringprefix)
 
 	EnumMembers []string
-	EnumRepr    string           // string int
+	EnumRepr    string            // string int
 	EnumStr     map[string]string // member -> representation string (string repr)
 	EnumInt     map[string]int64  // member -> representation int (int repr)
 }
